@@ -34,3 +34,137 @@ fn f1_write_buffer_fits_s_but_not_its_tag() {
         }
     }
 }
+
+// ------------------------------------------------------------------------------------------------ F3
+
+fn xx_pair_after_two() -> (snow::HandshakeState, snow::HandshakeState) {
+    let (mut i, mut r) = xx_pair();
+    let mut m = [0u8; 256];
+    let mut p = [0u8; 256];
+    let n = i.write_message(b"a", &mut m).unwrap();
+    r.read_message(&m[..n], &mut p).unwrap();
+    let n = r.write_message(b"b", &mut m).unwrap();
+    i.read_message(&m[..n], &mut p).unwrap();
+    (i, r)
+}
+
+/// F3 (C07): XX message 3 is "s, se" + payload. A delivery whose *payload* tag is corrupted fails after the
+/// static key was decrypted and a key was mixed; the genuine message must still be accepted afterwards.
+#[test]
+fn f3_failed_read_then_genuine_message() {
+    let (mut i, mut r) = xx_pair_after_two();
+    let mut m = [0u8; 256];
+    let mut p = [0u8; 256];
+    let n = i.write_message(b"hello", &mut m).unwrap();
+    let mut bad = m;
+    bad[n - 1] ^= 1;
+    assert!(r.read_message(&bad[..n], &mut p).is_err());
+    assert!(!r.is_handshake_finished() && !r.is_my_turn());
+    let res = r.read_message(&m[..n], &mut p);
+    assert_eq!(res, Ok(5), "genuine message 3 rejected after a failed delivery");
+    assert!(r.is_handshake_finished());
+}
+
+/// F3 (C07): a write into a buffer that fits the encrypted static key but not the payload fails; the retried
+/// message must still be accepted by the peer.
+#[test]
+fn f3_failed_write_then_retry() {
+    let (mut i, mut r) = xx_pair_after_two();
+    let mut small = [0u8; 50]; // s (32+16) fits, payload (5+16) does not
+    let mut m = [0u8; 256];
+    let mut p = [0u8; 256];
+    assert_eq!(i.write_message(b"hello", &mut small), Err(Error::Input));
+    let n = i.write_message(b"hello", &mut m).unwrap();
+    assert_eq!(r.read_message(&m[..n], &mut p), Ok(5), "retried message 3 rejected by the peer");
+}
+
+/// F3 (C07): genuine message, payload buffer too small, then the same message with a large enough buffer.
+#[test]
+fn f3_small_payload_buffer_then_retry() {
+    let (mut i, mut r) = xx_pair_after_two();
+    let mut m = [0u8; 256];
+    let mut p = [0u8; 256];
+    let n = i.write_message(b"hello", &mut m).unwrap();
+    assert!(r.read_message(&m[..n], &mut p[..2]).is_err());
+    assert_eq!(r.read_message(&m[..n], &mut p), Ok(5), "genuine message 3 rejected after an undersized payload buffer");
+}
+
+// ------------------------------------------------------------------------------------------------ F4
+
+mod rec {
+    use snow::params::{CipherChoice, DHChoice, HashChoice};
+    use snow::resolvers::{CryptoResolver, DefaultResolver};
+    use snow::types::{Cipher, Dh, Hash, Random};
+    use std::sync::{Arc, Mutex};
+
+    pub type Log = Arc<Mutex<Vec<([u8; 32], u64, Vec<u8>, Vec<u8>)>>>;
+    pub struct RecCipher {
+        pub inner: Box<dyn Cipher>,
+        pub key: [u8; 32],
+        pub log: Log,
+    }
+    impl Cipher for RecCipher {
+        fn name(&self) -> &'static str {
+            self.inner.name()
+        }
+        fn set(&mut self, key: &[u8; 32]) {
+            self.key = *key;
+            self.inner.set(key)
+        }
+        fn encrypt(&self, nonce: u64, ad: &[u8], pt: &[u8], out: &mut [u8]) -> usize {
+            self.log.lock().unwrap().push((self.key, nonce, ad.to_vec(), pt.to_vec()));
+            self.inner.encrypt(nonce, ad, pt, out)
+        }
+        fn decrypt(&self, nonce: u64, ad: &[u8], ct: &[u8], out: &mut [u8]) -> Result<usize, snow::Error> {
+            self.inner.decrypt(nonce, ad, ct, out)
+        }
+    }
+    pub struct RecResolver(pub Log);
+    impl CryptoResolver for RecResolver {
+        fn resolve_rng(&self) -> Option<Box<dyn Random>> {
+            DefaultResolver.resolve_rng()
+        }
+        fn resolve_dh(&self, c: &DHChoice) -> Option<Box<dyn Dh>> {
+            DefaultResolver.resolve_dh(c)
+        }
+        fn resolve_hash(&self, c: &HashChoice) -> Option<Box<dyn Hash>> {
+            DefaultResolver.resolve_hash(c)
+        }
+        fn resolve_cipher(&self, c: &CipherChoice) -> Option<Box<dyn Cipher>> {
+            Some(Box::new(RecCipher { inner: DefaultResolver.resolve_cipher(c)?, key: [0; 32], log: self.0.clone() }))
+        }
+    }
+}
+
+/// F4 (C06): K1K1 message 3 is "se" + payload. An oversize payload is detected only after it was encrypted;
+/// the retry derives the same key again and encrypts other data under the same (key, nonce).
+#[test]
+fn f4_no_key_nonce_reuse_after_oversize_payload() {
+    let params: NoiseParams = "Noise_K1K1_25519_ChaChaPoly_SHA256".parse().unwrap();
+    let log: rec::Log = Default::default();
+    let bi = Builder::with_resolver(params.clone(), Box::new(rec::RecResolver(log.clone())));
+    let br = Builder::new(params);
+    let ki = bi.generate_keypair().unwrap();
+    let kr = br.generate_keypair().unwrap();
+    let mut i = bi.local_private_key(&ki.private).unwrap().remote_public_key(&kr.public).unwrap().build_initiator().unwrap();
+    let mut r = br.local_private_key(&kr.private).unwrap().remote_public_key(&ki.public).unwrap().build_responder().unwrap();
+    let mut m = vec![0u8; 70000];
+    let mut p = vec![0u8; 70000];
+    let n = i.write_message(b"", &mut m).unwrap();
+    r.read_message(&m[..n], &mut p).unwrap();
+    let n = r.write_message(b"", &mut m).unwrap();
+    i.read_message(&m[..n], &mut p).unwrap();
+    log.lock().unwrap().clear();
+    let big = vec![7u8; 65535];
+    assert_eq!(i.write_message(&big, &mut m), Err(Error::Input));
+    let n = i.write_message(b"hello", &mut m).unwrap();
+    assert_eq!(r.read_message(&m[..n], &mut p), Ok(5));
+    let l = log.lock().unwrap();
+    for a in 0..l.len() {
+        for b in a + 1..l.len() {
+            if l[a].0 == l[b].0 && l[a].1 == l[b].1 {
+                assert!(l[a].2 == l[b].2 && l[a].3 == l[b].3, "two different inputs encrypted under the same key and nonce {}", l[a].1);
+            }
+        }
+    }
+}
